@@ -363,6 +363,22 @@ impl<'a> JsGen<'a> {
         } else {
             self.line("let s = 'x', t = \"y\", o = { p: a, q: { r: b } }, arr = [a, b];");
         }
+        let mut side = self.rng.side(0x1ade);
+        if self.o.unicode && side.chance(1, 3) {
+            // a ladder of identifiers whose first multi-byte character starts at every byte offset 1..=20
+            // (2-, 3- and 4-byte characters): byte-offset arithmetic on identifiers meets every boundary
+            let ch = *side.pick(&["\u{e9}", "\u{4f60}", "\u{1d465}"]);
+            let mut decl = String::from("let ");
+            for k in 1..=20usize {
+                if k > 1 {
+                    decl.push_str(", ");
+                }
+                let pre: String = "compteur_variable_longue"[..k].to_string();
+                decl.push_str(&format!("{pre}{ch}t{ch} = a + b"));
+            }
+            decl.push(';');
+            self.line(&decl);
+        }
         self.indent -= 1;
         self.block(d);
         self.in_fn -= 1;
